@@ -583,6 +583,20 @@ def checkForResumption13 (hash13 : Nat → Option Nat) (binderOk : Nat → Sessi
   else if identities.isEmpty then .noPSK
   else pskLoop hmac ctr hash13 binderOk x keys 0 identities
 
+/-- `pskIdentity` of the client hello (`handshake_messages.go`): the ticket and the client-reported,
+    obfuscated age of it (uint32, milliseconds + ticket_age_add). -/
+structure PskIdentity where
+  label               : Bytes
+  obfuscatedTicketAge : Nat
+  deriving Repr, DecidableEq
+
+/-- `serverHandshakeStateTLS13.checkForResumption` on the identities as the hello carries them.  AS THE CODE IS:
+    only `identity.label` is read ("We don't check the obfuscated ticket age because it's affected by clock
+    skew …"); the freshness decision is the server-side `createdAt` inside the authenticated ticket alone. -/
+def checkForResumption13Id (hash13 : Nat → Option Nat) (binderOk : Nat → SessionState13 → Bool) (x : Ctx13)
+    (keys : List TicketKey) (ids : List PskIdentity) : Dec13 :=
+  checkForResumption13 hmac ctr hash13 binderOk x keys (ids.map (·.label))
+
 end decisions
 
 /-! ### ticket issuance (what `sendSessionTicket` seals) -/
